@@ -52,7 +52,7 @@ pub fn c02(ctx: &Ctx) -> (CheckMeta, Outcome) {
                     for img in images(e, nbits, seed, thorough) {
                         let model = RdModel { bits: Bits::from_bytes(&img.bytes, e), e, zx: backend == "memzx", limit: nbits + 160, tables_ok: diag };
                         let rd = make_reader(e, kind, backend, "", &img.bytes);
-                        let run = RdRun { property: "C02", model: &model, image: &img.bytes, alphabet: &alphabet, max_states: 0, check_counter: false };
+                        let run = RdRun { property: "C02", model: &model, image: &img.bytes, alphabet: &alphabet, max_states: 40_000, check_counter: false };
                         out.merge(explore(&run, rd));
                     }
                     out
@@ -62,8 +62,8 @@ pub fn c02(ctx: &Ctx) -> (CheckMeta, Outcome) {
     }
     let out = run_all(tasks, threads());
     let meta = CheckMeta {
-        property: "C02",
-        level: "model_checking",
+        property: "C02".into(),
+        level: "model_checking".into(),
         rule: "breadth-first exploration to the fixpoint of the real reader object (exact Debug-string state identity) for every (endianness, reader kind, backend, image); alphabet read_bits 0..=64, peek 1..=max twice, skip 0..=2W+1,3W,3W+1, read_unary; every transition compared with the bit-vector model (value, advance, bit_pos); distinct_nontrivial counts transitions that start in a state reached through at least one earlier operation".into(),
         assumptions: vec!["reference model = canonical layout of C01 (harness/src/model.rs)".into(), "little-endian 64-bit host".into()],
     };
@@ -109,8 +109,8 @@ pub fn code_ops() -> Vec<ROp> {
 
 fn std_meta(property: &'static str, level: &'static str, rule: &str) -> CheckMeta {
     CheckMeta {
-        property,
-        level,
+        property: property.into(),
+        level: level.into(),
         rule: rule.into(),
         assumptions: vec!["reference model = canonical layout + textbook codecs (harness/src/model.rs)".into(), "little-endian 64-bit host".into()],
     }
@@ -141,7 +141,7 @@ pub fn c07(ctx: &Ctx) -> (CheckMeta, Outcome) {
                     for img in imgs.iter().take(take) {
                         let model = RdModel { bits: Bits::from_bytes(&img.bytes, e), e, zx: backend == "memzx", limit: nbits + 96, tables_ok: diag };
                         let rd = make_reader(e, kind, backend, "", &img.bytes);
-                        let run = RdRun { property: "C07", model: &model, image: &img.bytes, alphabet: &alphabet, max_states: 0, check_counter: false };
+                        let run = RdRun { property: "C07", model: &model, image: &img.bytes, alphabet: &alphabet, max_states: 40_000, check_counter: false };
                         out.merge(explore(&run, rd));
                     }
                     out
@@ -190,7 +190,7 @@ pub fn c09(ctx: &Ctx) -> (CheckMeta, Outcome) {
                             let bytes = &img.bytes[..cut];
                             let model = RdModel { bits: Bits::from_bytes(bytes, e), e, zx: backend == "memzx", limit: cut * 8 + 80, tables_ok: diag };
                             let rd = make_reader(e, kind, backend, "", bytes);
-                            let run = RdRun { property: "C09", model: &model, image: bytes, alphabet: &alphabet, max_states: 0, check_counter: false };
+                            let run = RdRun { property: "C09", model: &model, image: bytes, alphabet: &alphabet, max_states: 40_000, check_counter: false };
                             out.merge(explore(&run, rd));
                             cut += wb;
                             ncuts += 1;
@@ -241,7 +241,68 @@ pub fn c12_read(ctx: &Ctx) -> Outcome {
                     for img in imgs.iter().take(if thorough { 4 } else { 1 }) {
                         let model = RdModel { bits: Bits::from_bytes(&img.bytes, e), e, zx: backend == "memzx", limit: nbits + 64, tables_ok: diag };
                         let rd = make_reader(e, kind, backend, "", &img.bytes);
-                        let run = RdRun { property: "C12", model: &model, image: &img.bytes, alphabet: &alphabet, max_states: 0, check_counter: false };
+                        let run = RdRun { property: "C12", model: &model, image: &img.bytes, alphabet: &alphabet, max_states: 40_000, check_counter: false };
+                        out.merge(explore(&run, rd));
+                    }
+                    out
+                }));
+            }
+        }
+    }
+    run_all(tasks, threads())
+}
+
+pub fn copy_ops(w: usize, thorough: bool) -> Vec<ROp> {
+    let mut ns: Vec<usize> = if thorough { (0..=3 * w + 2).collect() } else { vec![0, 1, 2, w / 2, w - 1, w, w + 1] };
+    ns.extend([2 * w - 1, 2 * w, 2 * w + 1, 3 * w + 2, 5 * w + 7, 8 * w, 200]);
+    ns.sort();
+    ns.dedup();
+    let mut a = vec![];
+    for &n in &ns {
+        for wd in [8u8, 16, 32, 64, 128] {
+            let mut pfs: Vec<usize> = if thorough { (0..wd as usize).step_by(if wd > 32 { 5 } else { 1 }).collect() } else { vec![0] };
+            pfs.push(wd as usize - 1);
+            pfs.sort();
+            pfs.dedup();
+            for pf in pfs {
+                for from in [false, true] {
+                    a.push(ROp::Copy { n: n as u32, wd, prefill: pf as u8, from });
+                }
+            }
+        }
+    }
+    a
+}
+
+/// C08, source view: the reader state space with copy operations in the alphabet.
+pub fn c08_source(ctx: &Ctx) -> Outcome {
+    let nbits = if ctx.thorough { 768 } else { 640 };
+    let mut tasks: Vec<Task> = vec![];
+    for e in End::BOTH {
+        for kind in KINDS {
+            for (backend, wrapper) in [("memzx", ""), ("memstrict", ""), ("cursor", ""), ("memzx", "count")] {
+                if wrapper == "count" && !ctx.thorough && kind != "buf32" {
+                    continue;
+                }
+                let diag = ctx.diag[kind];
+                let seed = ctx.seed;
+                let thorough = ctx.thorough;
+                tasks.push(Box::new(move || {
+                    let mut out = Outcome::new();
+                    let (w, pk) = kind_word(kind);
+                    let mut alphabet = reduced_alphabet(w, pk);
+                    alphabet.extend(code_ops());
+                    alphabet.extend(copy_ops(w, thorough));
+                    alphabet.push(ROp::SetPos(0));
+                    alphabet.push(ROp::SetPos(w as u64 + 3));
+                    let imgs = images(e, nbits, seed, thorough);
+                    // seeded, valid codewords (table look-ahead before and after copies), all-ones in thorough
+                    let sel: Vec<usize> = if thorough { vec![0, 1, 4] } else { vec![1] };
+                    for ii in sel {
+                        let img = &imgs[ii];
+                        let model = RdModel { bits: Bits::from_bytes(&img.bytes, e), e, zx: backend == "memzx", limit: nbits + 64, tables_ok: diag };
+                        let rd = make_reader(e, kind, backend, wrapper, &img.bytes);
+                        let run = RdRun { property: "C08", model: &model, image: &img.bytes, alphabet: &alphabet, max_states: 40_000, check_counter: false };
                         out.merge(explore(&run, rd));
                     }
                     out
